@@ -13,3 +13,36 @@ Proof.
   revert l; induction n as [|n IH]; intros l H; cbn in H; [auto|].
   destruct l as [|a l]; cbn in *; [tauto|]. auto.
 Qed.
+
+Lemma NoDup_app_intro_single {A} (l : list A) x : NoDup l -> ~ In x l -> NoDup (l ++ [x]).
+Proof.
+  induction l as [|a l IH]; intros Hn Hx; cbn.
+  - constructor; [intros []|constructor].
+  - inversion Hn as [|? ? Ha Hl]; subst. constructor.
+    + intros H. apply in_app_or in H as [H|[H|[]]]; [auto|]. subst. apply Hx. now left.
+    + apply IH; auto. intros H. apply Hx. now right.
+Qed.
+
+Lemma NoDup_app_l {A} (l m : list A) : NoDup (l ++ m) -> NoDup l.
+Proof.
+  induction l as [|a l IH]; intros H; [constructor|]. cbn in H. inversion H as [|? ? Ha Hl]; subst.
+  constructor; [|auto]. intros Hin. apply Ha. apply in_or_app. now left.
+Qed.
+
+Lemma NoDup_app_r {A} (l m : list A) : NoDup (l ++ m) -> NoDup m.
+Proof. induction l as [|a l IH]; intros H; [exact H|]. cbn in H. inversion H; subst. auto. Qed.
+
+Lemma NoDup_app_disj {A} (l m : list A) x : NoDup (l ++ m) -> In x l -> In x m -> False.
+Proof.
+  induction l as [|a l IH]; intros H Hl Hm; [destruct Hl|]. cbn in H. inversion H as [|? ? Ha Hn]; subst.
+  destruct Hl as [->|Hl]; [apply Ha; apply in_or_app; now right | eauto].
+Qed.
+
+Lemma nth_error_ext {A} (l m : list A) : (forall k, nth_error l k = nth_error m k) -> l = m.
+Proof.
+  revert m; induction l as [|a l IH]; intros m H.
+  - destruct m as [|b m]; [reflexivity|]. specialize (H 0). discriminate.
+  - destruct m as [|b m]; [specialize (H 0); discriminate|].
+    pose proof (H 0) as H0. cbn in H0. injection H0 as ->. f_equal. apply IH.
+    intros k. exact (H (S k)).
+Qed.
